@@ -49,6 +49,35 @@ def joined_return(it, outs):
     return it.join_outcomes(rets, 0) if len(rets) > 1 else rets[0]
 
 
+def accepted_values(outs, var):
+    """Superset of the integer values of ``var`` for which some return
+    outcome exists (union over the return paths of the intersection of what
+    their path atoms admit)."""
+    from . import isets
+    acc = isets.ISet.empty()
+    for o in outs:
+        if o.kind != 'return':
+            continue
+        s_ = isets.ISet.all()
+        for a in o.state.kn.atoms:
+            if isinstance(a, Sym) and not isets.is_type_atom(a):
+                s_ = s_.inter(isets.superset(a, var))
+        acc = acc.union(s_)
+    return acc
+
+
+def channel_acceptance(outs, var=None):
+    """-> (ok, text): every channel 0..65535 has a return path."""
+    from . import isets
+    var = Sym('param', 'channel_id') if var is None else var
+    acc = accepted_values(outs, var)
+    missing = isets.ISet.range(0, 65535).inter(acc.complement())
+    return missing.is_empty(), (
+        'no guard excludes a channel in 0..65535' if missing.is_empty()
+        else 'channels %s are refused by an explicit guard (admitted: %s)'
+        % (missing, acc))
+
+
 def parts_of(term):
     if isinstance(term, Sym) and term.op == 'concat':
         return list(term.args)
@@ -76,6 +105,45 @@ def parse_bits(term):
     return out
 
 
+def bits_with_foreign_guard(term):
+    """An octet built from per-argument contributions cond(g, 1 << k, 0)
+    in which some g is not the truth value of its argument.
+    -> [(k, argument name, guard text)] for those, or None when the term is
+    not of that shape at all."""
+    items = term.args if isinstance(term, Sym) and term.op == 'bitor' \
+        else (term,)
+    bad = []
+    for p in items:
+        if isinstance(p, int) and p == 0:
+            continue
+        if isinstance(p, Sym) and p.op == 'shl' and \
+                isinstance(p.args[0], Sym) and p.args[0].op == 'field':
+            continue
+        if isinstance(p, Sym) and p.op == 'field':
+            continue
+        if isinstance(p, Sym) and p.op == 'cond' and p.args[2] == 0 and \
+                isinstance(p.args[1], int) and p.args[1] > 0 and \
+                p.args[1] & (p.args[1] - 1) == 0:
+            g = p.args[0]
+            flds = {t.args[0] for t in T.subterms(g) if t.op == 'field'}
+            if len(flds) != 1:
+                return None
+            name = next(iter(flds))
+            f = Sym('field', name)
+            truth = isinstance(g, Sym) and (
+                (g.op == 'truthy' and g.args[0] is f) or
+                (g.op == 'ne' and g.args[0] is f and g.args[1] in (0,
+                                                                    False))
+                or (g.op == 'eq' and g.args[0] is f and g.args[1] in (1,
+                                                                      True)))
+            if not truth:
+                bad.append((p.args[1].bit_length() - 1, name,
+                            T.show(g)[:60]))
+            continue
+        return None
+    return bad
+
+
 def parse_encode_elements(parts, pol):
     """[enc terms] -> layout elements."""
     els = []
@@ -90,6 +158,10 @@ def parse_encode_elements(parts, pol):
                 bits = parse_bits(operand)
                 if bits is not None:
                     els.append(('bits', tuple(sorted(bits)), short))
+                    continue
+                fg = bits_with_foreign_guard(operand)
+                if fg:
+                    els.append(('bits-guard', tuple(fg), short))
                     continue
             els.append(('other', p))
         else:
